@@ -58,11 +58,20 @@ theorem nodup_keys_openFile (disk : List (Str × Store V)) (fn : Str) (h : (AL.k
   | some s => exact h
   | none => exact AL.nodup_set _ _ _ h
 
+theorem isLast_of_nodup (ids : List (Str × Key)) (h : ids.Nodup) (i : Nat) : IsLast ids i := by
+  intro j a hij hj hi
+  exact nodup_getElem?_ne ids h i j a a hi hj (Nat.ne_of_lt hij) rfl
+
+theorem opOK_of_nodup (ids : List (Str × Key)) (h : ids.Nodup) (op : Op V) : OpOK ids op := by
+  cases op <;> first | trivial | exact isLast_of_nodup ids h _
+
 /-- the invariant of a single-identity run -/
 structure VInv (vo : VOps V) (pid : Str) (st : St V) : Prop where
   hpid : st.pid = pid
   hactual : st.actual = pid
   inv : Inv vo st
+  /-- one value object per (prefix, key): every object is the youngest on its key (what C09's coherence asks of updates) -/
+  uniq : (idsOf st).Nodup
   /-- file contents, as key lists: the keys of the objects bound to the file, in construction order -/
   keys : ∀ fn, AL.keys (storeOf st.disk fn)
     = ((st.values.map (·.params)).filter (fun p => decide (fileOf pid p = fn))).map mmapKey
@@ -71,7 +80,7 @@ structure VInv (vo : VOps V) (pid : Str) (st : St V) : Prop where
   nodupFiles : (AL.keys st.disk).Nodup
 
 theorem vinv_init (vo : VOps V) (pid : Str) : VInv vo pid (St.init (V := V) pid) :=
-  ⟨rfl, rfl, inv_init vo pid, by intro fn; simp [St.init, storeOf, AL.getD_eq, AL.keys],
+  ⟨rfl, rfl, inv_init vo pid, by simp [idsOf, St.init], by intro fn; simp [St.init, storeOf, AL.getD_eq, AL.keys],
     by intro fn h; simp [St.init, AL.keys] at h, by simp [St.init, AL.keys]⟩
 
 theorem checkPid_same (vo : VOps V) (st : St V) (h : st.pid = st.actual) : checkPid vo st = st := by
@@ -125,12 +134,12 @@ theorem vinv_construct (vo : VOps V) (pid : Str) (st : St V) (h : VInv vo pid st
       have := congrArg (List.map idOf) hparams
       simpa [List.map_map, newParams, Function.comp_def] using this
     rw [e, List.nodup_append]
-    exact ⟨h.inv.uniq, by simp, by intro a ha b hb'; simp at hb'; subst hb'; intro e'; subst e'; exact hnew ha⟩
-  have hinv := step_inv vo st (.construct p) h.inv hu
+    exact ⟨h.uniq, by simp, by intro a ha b hb'; simp at hb'; subst hb'; intro e'; subst e'; exact hnew ha⟩
+  have hinv := step_inv vo st (.construct p) h.inv trivial
   have hpid := step_pid vo st (.construct p) hb
   have hcell : ∀ fn k, cellVal vo (step vo st (.construct p)).1.disk fn k = cellVal vo st.disk fn k := by
     intro fn k
-    have := step_cell vo st (.construct p) h.inv fn k
+    have := step_cell vo st (.construct p) h.inv trivial fn k
     simpa using this
   -- the key is new in its file
   have hnone : cellGet st.disk (fileOf pid p) (mmapKey p) = none := by
@@ -154,7 +163,7 @@ theorem vinv_construct (vo : VOps V) (pid : Str) (st : St V) (h : VInv vo pid st
     simp only [step, checkPid_same vo st hpa]
   obtain ⟨disk0, hd, hs0, hk0, hn0⟩ := reset_disk vo pid st.files st.disk p (h.hpid ▸ hb.files) hnone
   rw [h.hpid] at hstep
-  refine ⟨⟨by rw [hpid.2, h.hactual], by rw [hpid.1, h.hactual], hinv, ?_, ?_, ?_⟩, by simpa [newParams] using hparams, hcell⟩
+  refine ⟨⟨by rw [hpid.2, h.hactual], by rw [hpid.1, h.hactual], hinv, hu, ?_, ?_, ?_⟩, by simpa [newParams] using hparams, hcell⟩
   · intro fn
     rw [hstep, hd, storeOf_set, hparams]
     simp only [newParams, filter_append_singleton, decide_eq_true_eq]
@@ -195,8 +204,8 @@ theorem vinv_write (vo : VOps V) (pid : Str) (st : St V) (h : VInv vo pid st) (o
     rw [List.map_map, List.map_map] at this
     have e : (fun v : ValueObj V => idOf v.params) = idOf ∘ (fun v : ValueObj V => v.params) := rfl
     rw [e, this, ← e]
-    exact h.inv.uniq
-  have hinv := step_inv vo st op h.inv hu
+    exact h.uniq
+  have hinv := step_inv vo st op h.inv (opOK_of_nodup _ h.uniq op)
   have hpid := step_pid vo st op hb
   have hpid2 : (step vo st op).1.pid = pid ∧ (step vo st op).1.actual = pid := by
     rcases hop with ⟨i, a, e⟩ | ⟨i, x, t, e⟩ <;> subst e <;> exact ⟨by rw [hpid.2, h.hactual], by rw [hpid.1, h.hactual]⟩
@@ -210,7 +219,7 @@ theorem vinv_write (vo : VOps V) (pid : Str) (st : St V) (h : VInv vo pid st) (o
     · cases hv : st.values[i]? with
       | none => left; rfl
       | some v => right; exact ⟨v, List.mem_iff_getElem?.mpr ⟨i, hv⟩, _, _, rfl⟩
-  refine ⟨⟨hpid2.1, hpid2.2, hinv, ?_, ?_, ?_⟩, hparams⟩
+  refine ⟨⟨hpid2.1, hpid2.2, hinv, hu, ?_, ?_, ?_⟩, hparams⟩
   · intro fn
     rw [hparams]
     rcases hdisk with e | ⟨v, hv, x, t, e⟩
@@ -247,7 +256,7 @@ theorem store_eq (vo : VOps V) (pid : Str) (st : St V) (h : VInv vo pid st) (fn 
     storeOf st.disk fn = (AL.keys (storeOf st.disk fn)).map (fun k => (k, cellVal vo st.disk fn k)) := by
   have hnd : (AL.keys (storeOf st.disk fn)).Nodup := by
     rw [h.keys]
-    have hu := h.inv.uniq
+    have hu : (st.values.map (fun v => idOf v.params)).Nodup := h.uniq
     -- keys of one file: injective image of a sublist of the (prefix, key) identities
     have e : ((st.values.map (·.params)).filter (fun p => decide (fileOf pid p = fn))).map mmapKey
         = (((st.values.map (·.params)).filter (fun p => decide (fileOf pid p = fn))).map idOf).map (·.2) := by
